@@ -128,7 +128,7 @@ structure Blk where
   index : List Cand := []        -- CBlock.CandidateTrieDB ("all candidates" index)
   accts : List Acct := []        -- the block's account view (AccountTrieDB over the stable data)
   changes : List Change := []    -- accounts dyed with this block's height
-  deriving Repr, Inhabited
+  deriving DecidableEq, Repr, Inhabited
 
 /-- `filterUnregisters` -/
 def filterUnreg (l : List Cand) (un : List Nat) : List Cand :=
